@@ -9,6 +9,11 @@ M = [
  # name, file, old, new, properties expected to be violated
  ("control-cksum-fold-reversed", "src/sentence.rs", "sentence.iter().fold(0u8, |acc, &item| acc ^ item)", "sentence.iter().rev().fold(0u8, |acc, &item| item ^ acc)", "none (equivalent rewrite: control, must NOT be reported) C02 C08 C07 C01"),
  ("cksum-first-byte-indexed", "src/sentence.rs", "sentence.iter().fold(0u8, |acc, &item| acc ^ item)", "sentence.iter().skip(1).fold(sentence[0], |acc, &item| acc ^ item)", "C01 C02 C08 (index out of bounds on an empty body: '!*00')"),
+ ("control-line-counter", "src/sentence.rs", "        let (_, (data, mut ais_sentence, checksum)) = parse_nmea_sentence(line)?;", "        self.fragment_number_hint = self.fragment_number_hint.wrapping_add(1);\n        let (_, (data, mut ais_sentence, checksum)) = parse_nmea_sentence(line)?;", "none (benign: a private per-line counter changes the Debug rendering on every line, behaviour unchanged; control, must NOT be reported) C17 C06 C05 C02 C01"),
+ ("control-error-texts", "src/sentence.rs", "return Err(\"Fragment numbers out of sequence\".into());", "return Err(\"fragment out of order\".into());", "none (benign: error text changed; control, must NOT be reported) C06 C17 C18"),
+ ("control-repair-type9-selector", "src/messages/standard_aircraft_position_report.rs", "        let (data, radio_status) = parse_radio(data, message_type)?;", "        let (data, cs_selector) = take_bits::<_, u8, _, _>(1u8)(data)?;\n        let (data, radio_status) = match cs_selector {\n            0 => SotdmaMessage::parse(data)?,\n            _ => ItdmaMessage::parse(data)?,\n        };", "none (a REPAIR of known finding D6; pinned test_type9_example fails by design; C16 must exit 0 without a KNOWN-FINDING line) C16 C04 C14 C01"),
+ ("control-repair-sentence-type", "src/sentence.rs", "    let (_, message_type) = messages::message_type(ais_data)?;", "    let (_, shifted) = messages::message_type(ais_data)?;\n    let message_type = match ais_data[0] {\n        c @ 48..=87 => c - 48,\n        c @ 96..=119 => c - 56,\n        _ => shifted,\n    };", "none (a REPAIR of known finding D10; four pinned sentence tests fail by design; C19 must exit 0 without a KNOWN-FINDING line) C19 C07 C08 C01"),
+ ("control-utc-minute-7-bits", "src/messages/radio_status.rs", "        let (data, _spare) = take_bits::<_, u8, _, _>(1u8)(data)?;\n        let (data, minute) = take_bits(6u8)(data)?;", "        let (data, minute) = take_bits(7u8)(data)?;", "none (benign: the ITU reading of the UTC minute, zone U2; control, must NOT be reported) C16 C01"),
  ("cksum-low-nibble", "src/sentence.rs", "if expected_checksum != received_checksum {", "if expected_checksum & 0x7f != received_checksum & 0x7f {", "C02 C08"),
  ("cksum-bypass-on-continuation", "src/sentence.rs", "        Self::check_checksum(data, checksum)?;\n", "        if ais_sentence.fragment_number <= 1 {\n            Self::check_checksum(data, checksum)?;\n        }\n", "C02"),
  ("cksum-error-fields-swapped", "src/sentence.rs", "                expected: expected_checksum,\n                found: received_checksum,", "                expected: received_checksum,\n                found: expected_checksum,", "C02"),
@@ -37,6 +42,10 @@ M = [
  ("sentence-type-shift-3", "src/sentence.rs", "    let (_, message_type) = messages::message_type(ais_data)?;", "    let (_, message_type) = messages::message_type(ais_data)?;\n    let message_type = if num_fragments > 1 { message_type >> 1 } else { message_type };", "C19"),
 ]
 
+EXTRA = {
+ "control-line-counter": [("    fragment_number: u8,\n    data: AisRawData,\n}", "    fragment_number: u8,\n    data: AisRawData,\n    fragment_number_hint: usize,\n}")],
+}
+
 def sh(*a, **k):
     return subprocess.run(a, cwd=REPO, stdout=subprocess.PIPE, stderr=subprocess.STDOUT, text=True, **k)
 
@@ -49,7 +58,11 @@ def main():
         s = open(p).read()
         if s.count(old) != 1:
             print("!! cannot place", name, s.count(old)); continue
-        open(p, "w").write(s.replace(old, new))
+        s = s.replace(old, new)
+        for (o2, n2) in EXTRA.get(name, []):
+            assert s.count(o2) == 1, (name, o2)
+            s = s.replace(o2, n2)
+        open(p, "w").write(s)
         d = sh("git", "diff", "--", "src").stdout
         sh("git", "checkout", "--", "src")
         open(os.path.join(OUT, name + ".diff"), "w").write(d)
